@@ -38,10 +38,10 @@ RULE = ('cases: (a) agent collectors: seeded runs of 30 timesteps with a populat
         'records held in between and an empty collection (b); distinct by the run signature.')
 ASSUMPTIONS = ['file clause checked for the default clear_records_on_write=True and filemode "a" (the property\'s wording)',
                'per-agent / composite functions are pure', 'os._exit after step t stands for a crash between timesteps']
-FLOORS = {'quick': {'environment_installed_after_collector': 70, 'agent_steps': 10000, 'records_compared': 5000, 'empty_records_skipped': 470, 'unscheduled_steps': 2000,
+FLOORS = {'quick': {'nested_models_run_inside_a_collection': 427, 'environment_installed_after_collector': 70, 'agent_steps': 10000, 'records_compared': 5000, 'empty_records_skipped': 470, 'unscheduled_steps': 2000,
                     'mid_step_population_changes': 2000, 'composite_none': 1000, 'composite_dict': 1000, 'shared_composite_dict_calls': 1000, 'history_unchanged_checks': 8000,
-                    'file_steps': 4900, 'flushes': 1500, 'conservation_checks': 4900, 'empty_collections': 800, 'opens_observed': 1500,
-                    'killed_children': 20, 'default_priority_runs': 200, 'big_many_systems_runs': 4, 'big_flush_batches': 4, 'collectors_attached_late': 100, 'late_collector_twin_runs': 100,
+                    'file_steps': 4900, 'flushes': 1500, 'conservation_checks': 4900, 'empty_collections': 712, 'opens_observed': 1500,
+                    'killed_children': 14, 'default_priority_runs': 200, 'big_many_systems_runs': 4, 'big_flush_batches': 4, 'collectors_attached_late': 100, 'late_collector_twin_runs': 100,
                     'reach:Collectors.AgentCollector.collect': 6500, 'reach:Collectors.FileCollector.execute': 4100,
                     'reach:Collectors.FileCollector.write_records': 1800},
           'thorough': {'agent_steps': 750000, 'file_steps': 300000, 'killed_children': 970}}
@@ -160,6 +160,20 @@ def case_agent(ctx, case):
             return None
         if comp_mode == 'sometimes' and t % 2:
             return None
+        if t % 5 == 0:
+            # the composite function runs a small forecast model of its own - with a collector of its own (same default id) - to the end:
+            # a nested model stepped from inside OUR collector's turn is a model like any other
+            inner = core.Model()
+            ia = core.Agent('i0', inner)
+            ia.add_component(Val(ia, inner, 1))
+            inner.environment.add_agent(ia)
+            ic = col.AgentCollector(inner, lambda a: a[Val].v)
+            inner.systems.add_system(ic)
+            inner.execute(3)
+            ctx.count('nested_models_run_inside_a_collection')
+            if ic.records != [{'i0': 1}] * 3:
+                raise CaseViolation('a model built and stepped 3 times from inside a collector\'s composite function did not collect one record per '
+                                    'timestep', inner_records=ic.records, outer_timestep=t)
         if comp_mode == 'shared':        # a running summary: the very same dict object, updated and returned every time
             shared_summary['count'] = len(agents)
             shared_summary['sum'] = sum(a[Val].v for a in agents.values())
